@@ -116,3 +116,17 @@ def run_and_observe(case, result):
     run = run_scenario(case)
     observe(result, run)
     return run
+
+
+def sample(case, run, **extra):
+    """What a case looks like, for the evidence file: scenario outline + the beginning of its event log."""
+    gen = case["generations"][-1]
+    out = dict(extra)
+    out["generations"] = len(case["generations"])
+    out["script"] = gen.get("script", [])[:12]
+    out["payloads"] = [[p["id"], p["flavour"], p.get("when", "-"), p.get("program", [])[:4], p.get("cleanup", {}).get("kind", "none")]
+                       for p in gen.get("payloads", [])[:6]]
+    out["services"] = [[s["id"], s["flavour"], s.get("create", "-")] for s in gen.get("services", [])[:4]]
+    out["first_events"] = [[e["seq"], e["kind"], e.get("op") or e.get("pid") or "", e.get("by", "")] for e in run.events[:18] if e["kind"] != "inject-stats"]
+    out["events_total"] = len(run.events)
+    return out
